@@ -449,6 +449,27 @@ def predicates(s: Session, res: Result, label: str, only: str | None) -> None:
                 bad("C15", "a waiting message was overtaken by one enqueued after it (same priority)", case={"delivered": a["id"], "overtaken": x},
                     observed=[aa["id"] for aa in arr])
                 break
+    # a returned message is handed over again no later than messages enqueued after its return (same priority, one consumer)
+    for i, op in enumerate(s.ops):
+        if op.get("op") != "reject" or op["id"] not in seq:
+            continue
+        x = op["id"]
+        px = seq[x][0]
+        # what happened to x after this reject: its next hand-over, or another terminal event / the end of its consumer
+        dx = next((d["seq"] for d in s.deliveries if d["id"] == x and d["seq"] > i and d["cat"] == "NORMAL"), None)
+        for j in range(i + 1, len(s.ops)):
+            o2 = s.ops[j]
+            if o2.get("op") == "finish":
+                break
+            if o2.get("op") == "enqueue" and o2["due"] is None and o2["prio"] == px and "ttl" not in o2["params"]:
+                dy = next((d["seq"] for d in s.deliveries if d["id"] == o2["id"] and d["cat"] == "NORMAL"), None)
+                if dy is not None and (dx is None or dx > dy):
+                    x_ttl = s.msgs[x]["params"].ttl is not None
+                    if not x_ttl:
+                        bad("C15", "a returned (rejected) message was handed over again later than a message enqueued after its return "
+                                   "(same priority)", case={"returned": x, "rejected_at_op": i, "later_message": o2["id"]},
+                            observed={"returned_handed_over_at": dx, "later_handed_over_at": dy})
+                        break
     # exactly one place
     snap = s.snapshot()
     for mid in s.msgs:
